@@ -85,15 +85,17 @@ example : (send { requireAck := true } { session := some (0, true), conns := [{ 
 
 /-- **a conforming matching ack yields success, in whatever legal msgpack form it arrives**: if the
 specification parser finds, at the front of what the peer sent, a map with non-empty string keys whose
-`ack` entries are strings (any header class, entries in any order, further entries of any shape)
+`ack` entries are strings (any header class, entries in any order, further entries of any shape but
+without a token in the ext32 format, on which msgp's stream `Skip` fails)
 and the last `ack` entry is this chunk, and every byte of the message was accepted, then `Send`
 succeeds -/
 theorem C04_conforming_ack (cfg : Cfg) (s : St) (id : Nat) (e chunk : Bytes) (f : WFault) (resp rest : Bytes)
     (kvs : Objs) (hs : s.session = some (id, true)) (hack : cfg.requireAck = true)
     (hw : (doWrite e f).2 = .ok) (hp : parse resp = some (.map kvs, rest)) (hk : KVsOK ackOK kvs)
+    (hx : hasExt32 resp = false)
     (hc : (foldKVs ackApply kvs {}).ack = chunk) :
     (send cfg s (some e) chunk f resp).2 = .ok :=
   (C04_success_iff cfg s id e chunk f resp hs hack).2
-    ⟨hw, _, _, Ack.unmarshal_complete .stream {} hp hk, hc⟩
+    ⟨hw, _, _, Ack.unmarshal_complete .stream {} hp hk (fun _ => hx), hc⟩
 
 end FV.Tcp
